@@ -15,26 +15,21 @@ func init() {
 	vHarnesses["H_C15_xmlseq_bytes"] = H_C15_xmlseq_bytes
 	vHarnesses["H_C15_json_bytes"] = H_C15_json_bytes
 	vHarnesses["H_C15_json_exact"] = H_C15_json_exact
+	vHarnesses["H_C15_xml_opts"] = H_C15_xml_opts
 	vHarnesses["H_C15_encode_opts"] = H_C15_encode_opts
 }
 
 const vArgAlpha = ".[]-09:!*a"
 
 func vArgLen() int {
-	if vTier() == 1 {
-		return 4
-	}
-	return 5
+	return vP("arg", 5, 4)
 }
 
 // (a) query methods with arbitrary argument strings on Maps that may contain empty keys
 func H_C15_args() {
 	vResetDecOpts()
-	w := 1
-	if vTier() == 1 {
-		w = 2
-	}
-	m := Map(vNondetMap(vSpec{Depth: 2, Width: w, Kinds: "mls", KeyAlpha: "a0", KeyMin: 0, KeyMax: 1, StrAlpha: "x", StrMax: 0}))
+	w := vP("width", 1, 2)
+	m := Map(vNondetMap(vSpec{Depth: vP("depth", 2, 2), Width: w, Kinds: "mls", KeyAlpha: "a0", KeyMin: 0, KeyMax: 1, StrAlpha: "x", StrMax: 0}))
 	arg := vNondetString(0, vArgLen(), vArgAlpha)
 	which := vChoose(8)
 	panicked := vCatch(func() {
@@ -110,11 +105,8 @@ func H_C15_args_index() {
 // (a) update methods
 func H_C15_args_update() {
 	vResetDecOpts()
-	w := 1
-	if vTier() == 1 {
-		w = 2
-	}
-	m := Map(vNondetMap(vSpec{Depth: 2, Width: w, Kinds: "mls", KeyAlpha: "a0", KeyMin: 0, KeyMax: 1, StrAlpha: "x", StrMax: 0}))
+	w := vP("width", 1, 2)
+	m := Map(vNondetMap(vSpec{Depth: vP("depth", 2, 2), Width: w, Kinds: "mls", KeyAlpha: "a0", KeyMin: 0, KeyMax: 1, StrAlpha: "x", StrMax: 0}))
 	arg := vNondetString(0, vArgLen(), vArgAlpha)
 	which := vChoose(7)
 	panicked := vCatch(func() {
@@ -170,10 +162,7 @@ const vXmlAlpha = "<>/a=\"&;!-? "
 // (b) XML decoders on arbitrary bytes
 func H_C15_xml_bytes() {
 	vResetDecOpts()
-	n := 7
-	if vTier() == 1 {
-		n = 8
-	}
+	n := vP("bytes", 7, 8)
 	in := []byte(vNondetString(0, n, vXmlAlpha))
 	ref := refXmlFirstDoc(in)
 	form := vChoose(3)
@@ -211,10 +200,7 @@ func H_C15_xml_bytes() {
 // (b) sequence decoders and BeautifyXml on arbitrary bytes
 func H_C15_xmlseq_bytes() {
 	vResetDecOpts()
-	n := 6
-	if vTier() == 1 {
-		n = 7
-	}
+	n := vP("bytes", 6, 7)
 	in := []byte(vNondetString(0, n, vXmlAlpha))
 	form := vChoose(4)
 	var m MapSeq
@@ -283,10 +269,7 @@ func vSeqHasMixed(v interface{}) bool {
 
 // (d) JSON decoders on arbitrary bytes under any schedule
 func H_C15_json_bytes() {
-	n := 4
-	if vTier() == 1 {
-		n = 5
-	}
+	n := vP("bytes", 4, 5)
 	in := []byte(vNondetString(0, n, "{}[]\":, \\a1"))
 	form := vChoose(3)
 	var m Map
@@ -364,5 +347,64 @@ func H_C15_json_exact() {
 	} else {
 		vAssert(err != nil, "json exact: a first document that encoding/json rejects is rejected")
 		vCover("rejected")
+	}
+}
+
+// (b) the XML decoders on arbitrary bytes with one decoder option switched on
+func H_C15_xml_opts() {
+	vResetDecOpts()
+	n := vP("bytes", 5, 6)
+	in := []byte(vNondetString(0, n, "<>/a=\" x"))
+	ref := refXmlFirstDoc(in)
+	o := vDecOpts{attrPrefix: "-"}
+	opt := vChoose(8)
+	switch opt {
+	case 0:
+		o.simpleAsMap = true
+	case 1:
+		o.seq = true
+	case 2:
+		o.lower, o.snake = true, true
+	case 3:
+		o.keepSpaces = true
+	case 4:
+		o.escape = true
+	case 5:
+		o.attrPrefix = ""
+	case 6:
+		o.simpleAsMap, o.seq = true, true
+	}
+	vSetDecOpts(o)
+	if opt == 7 {
+		HandleXMPPStreamTag(true)
+	}
+	cast := vChoose(2) == 1
+	seq := vChoose(2) == 1
+	var m map[string]interface{}
+	var err error
+	panicked := vCatch(func() {
+		if seq {
+			var ms MapSeq
+			ms, err = NewMapXmlSeq(in, cast)
+			m = ms
+		} else {
+			var mm Map
+			mm, err = NewMapXml(in, cast)
+			m = mm
+		}
+	})
+	HandleXMPPStreamTag(false)
+	vResetDecOpts()
+	vAssert(!panicked, "xml opts: decoders never panic on arbitrary input, whatever decoder option is set")
+	if err != nil {
+		vCover("rejected")
+	} else {
+		vCover("accepted")
+	}
+	if !seq && opt != 7 {
+		vAssert((err == nil) == (ref == 1), "xml opts: decoding fails exactly when the standard tokenizer rejects the first document, whatever decoder option is set")
+		if err != nil {
+			vAssert(m == nil, "xml opts: an error comes with no partial Map")
+		}
 	}
 }
